@@ -261,16 +261,17 @@ def _vacuity_guard(out, prop, events, rel):
             raise C.ToolError("vacuity guard: never exercised: %s" % missing)
 
 
-def replay_cases(replay, obs):
-    """doc-replay under the harness watchdog: a case on which the code under test hangs or takes the
-    process down becomes a `crash` event (judged like any other) and the run continues after it."""
+def replay_cases(replay, obs, cmd=None):
+    """A harness driver (default: doc-replay --in replay) under the harness watchdog: a case on which the code
+    under test hangs or takes the process down becomes a `crash` event (judged like any other) and the run
+    continues after it.  The driver must support --out, --skip, --watch, --sync."""
     done = 0
     crashes = 0
+    cmd = cmd or ["doc-replay", "--in", replay]
     with open(obs, "w") as f:
         while True:
             part = "%s.part%d" % (obs, crashes)
-            _, crashed = C.run_harness_watched(["doc-replay", "--in", replay, "--out", part, "--skip", str(done)],
-                                               part, timeout=7200)
+            _, crashed = C.run_harness_watched(cmd + ["--out", part, "--skip", str(done)], part, timeout=7200)
             with open(part) as g:
                 for line in g:
                     f.write(line)
